@@ -1288,6 +1288,8 @@ def scope_program(T, d, context):
     if context == "module":
         if d not in T["names"] or t[0] in ("TCallCrash", "TInt"):
             return None
+        if t[0] == "TNoValue" and STRICT:
+            return None      # a value-less directive cannot be written in a header at all since the parser repair
         val = {"TBool": "True", "TStr": "x", "TEncoding": "utf8", "TNoValue": "True", "TList": "//x"}.get(t[0]) or (t[0] == "TEnum" and t[1][0])
         return "# cython: %s=%s\ndef f(): pass\n" % (d, val)
     use = "cython.%s%s" % (d, arg)
